@@ -38,9 +38,9 @@ Definition expect_of (sc : scenario) (c0 : cluster) (out : outcome) : list id :=
                 (intern (prev_of c0) (bad_act_of (events t) ++ unrec_of pl t ++ pl_invalid pl ++ unpruned_of sc pl)))
         (detached_of c0 (out_final out) t ++ aliased_of sc c0 (out_final out) t).
 
-Definition gone_ok (fin : cluster) (e : evt) : bool :=
+Definition gone_ok (sc : scenario) (fin : cluster) (e : evt) : bool :=
   match e with
-  | EPrune _ i AOk => match find_obj (objs fin) i with None => true | Some _ => false end
+  | EPrune _ i AOk => match find_obj (objs fin) i with None => true | Some _ => u_fin (uinfo_of sc i) end
   | _ => true
   end.
 
@@ -52,7 +52,7 @@ Lemma mon_C03_unfold sc c0 out :
   | Some l =>
       set_eqn l (expect_of sc c0 out)
       && forallb (fun i => memn i (managed (out_final out))) (ok_applied_of (events (out_trace out)))
-      && forallb (gone_ok (out_final out)) (events (out_trace out))
+      && forallb (gone_ok sc (out_final out)) (events (out_trace out))
   end.
 Proof. reflexivity. Qed.
 
@@ -149,7 +149,7 @@ Section Final.
     Lemma wf_destroy_prune : o_prune (sc_opts sc) = false -> o_destroy (sc_opts sc) = false.
     Proof.
       intros P. destruct (o_destroy (sc_opts sc)) eqn:D; [|reflexivity].
-      destruct HWF as [_ [_ [_ [_ [_ W]]]]]. rewrite (W D) in P. discriminate.
+      destruct HWF as [_ [_ [_ [_ [_ [W _]]]]]]. rewrite (W D) in P. discriminate.
     Qed.
 
     (* successful applies *)
@@ -275,11 +275,12 @@ Section Final.
     Qed.
 
     (* conjunct 3: objects whose delete succeeded are gone *)
-    Lemma deleted_gone e : In e (events t) -> gone_ok fin e = true.
+    Lemma deleted_gone e : In e (events t) -> gone_ok sc fin e = true.
     Proof.
       intros H. destruct e as [| | | | |g i s| | |]; try reflexivity. destruct s; try reflexivity.
       apply ev_in in H. pose proof (C_gone _ _ _ _ _ CI g i H) as G. cbn [gone_ok].
-      change (find_obj (objs fin) i) with (fo fin i). rewrite out_final_run, fo_norm, G. reflexivity.
+      change (find_obj (objs fin) i) with (fo fin i). rewrite out_final_run, fo_norm.
+      destruct G as [G|G]; [rewrite G; reflexivity|]. destruct (fo (r_cl sf) i); [exact G|reflexivity].
     Qed.
 
     (* the destroy branch: nothing that was tracked is left managed *)
